@@ -258,7 +258,46 @@ def l2_case(draw):
     lang = draw(st.sampled_from(["c", "cpp", "cpp", "py"]))
     files = draw(st.lists(source_doc(lang, False), max_size=3))
     override = draw(source_doc(lang, True))
-    return {"lang": lang, "files": files, "override": override}
+    if lang == "cpp" and draw(st.booleans()):
+        # shorthand given explicitly (CLI/API) over files that set members of its documented group
+        override.setdefault("options", {})["std"] = draw(st.sampled_from(["c++17-pmr", "cetl++14-17"]))
+        if draw(st.booleans()):
+            k = draw(st.sampled_from(DOCUMENTED_GROUP))
+            vals = {
+                "variable_array_type_include": ['"my/vec.hpp"', '"cetl/variable_length_array.hpp"', "<vector>"],
+                "variable_array_type_template": ["my::vec<{TYPE}>", "std::vector<{TYPE}>"],
+                "variable_array_type_constructor_args": ["{MAX_SIZE}", ""],
+                "allocator_include": ['"my/alloc.hpp"', "<memory>"],
+                "allocator_type": ["my::alloc", "std::allocator"],
+                "allocator_is_default_constructible": [True, False],
+                "ctor_convention": ["uses-trailing-allocator", "uses-leading-allocator"],
+            }[k]
+            files = files + [{"options": {k: draw(st.sampled_from(vals))}}]
+            files = draw(st.permutations(files))
+    return {"lang": lang, "files": list(files), "override": override}
+
+
+# the group of options the C++ shorthands are DOCUMENTED to set (docs/languages.rst, "c++17-pmr.yaml" / "cetl++14-17.yaml")
+DOCUMENTED_GROUP = [
+    "variable_array_type_include",
+    "variable_array_type_template",
+    "variable_array_type_constructor_args",
+    "allocator_include",
+    "allocator_type",
+    "allocator_is_default_constructible",
+    "ctor_convention",
+]
+_SHORTHAND_BASELINE: typing.Dict[str, dict] = {}
+
+
+def shorthand_baseline(env: "L2Env", std: str) -> dict:
+    """What the shorthand alone (no files, no other overrides) yields for its documented group."""
+    key = f"{core.REPO}|{std}"
+    if key not in _SHORTHAND_BASELINE:
+        lctx, _, _ = build_context(env, {"lang": "cpp", "files": [], "override": {"options": {"std": std}}})
+        opts = observe(lctx)["options"]
+        _SHORTHAND_BASELINE[key] = {k: opts.get(k, "<absent>") for k in DOCUMENTED_GROUP}
+    return _SHORTHAND_BASELINE[key]
 
 
 def expected_section(case) -> typing.Tuple[dict, typing.Optional[str]]:
@@ -382,6 +421,13 @@ def check_l2(ctx: core.Ctx, case, env: L2Env):
         classes=["l2." + case["lang"], f"l2.files={len(case['files'])}"]
         + (["l2.shorthand"] if std in ("c++17-pmr", "cetl++14-17") else []),
     )
+    if std in ("c++17-pmr", "cetl++14-17"):
+        # metamorphic, independent of the tree's own group table: the shorthand sets its documented group AS A UNIT, so no
+        # lower-precedence source may influence any member of the group
+        base = shorthand_baseline(env, std)
+        moved = sorted(k for k in DOCUMENTED_GROUP if got["options"].get(k, "<absent>") != base[k])
+        if moved:
+            res.append((f"L2|cpp|shorthand-group-not-a-unit|{std}", f"{case!r}: with -std {std} the documented group members {moved} are {[got['options'].get(k) for k in moved]} instead of {[base[k] for k in moved]} (what the shorthand alone sets)"))
     for k in exp:
         if got.get(k) != exp[k]:
             diff = k
